@@ -52,9 +52,14 @@ def hooks(interp, frame, call, fname, args, kwargs, st):
     return NotImplemented
 
 
+INTERPS = []
+
+
 def make_interp(repo):
-    return Interp(repo, scenario={"fh.is_all_out_of_sample": True, "fh.is_all_in_sample": False},
-                  hooks=hooks, no_inline=("_check_y", "check_fh", "check_time_index", "_repr"))
+    it = Interp(repo, scenario={"fh.is_all_out_of_sample": True, "fh.is_all_in_sample": False},
+                hooks=hooks, no_inline=("_check_y", "check_fh", "check_time_index", "_repr"))
+    INTERPS.append(it)
+    return it
 
 
 def construct(repo, it, cls, ctor_args):
@@ -130,6 +135,7 @@ def split_parts(v):
 
 
 SOFT = {"on": False}
+SOFT_PRE = {}
 
 
 def undecided(ctx, rule, construct, why, loc):
@@ -190,16 +196,17 @@ def bounded_grid(ctx, repo, it, tag, sliding, iw, recs, loc):
                                     if lp.var is None:
                                         return None
                                     loopvars |= lp.var.symbols()
+                                taken = True
                                 for f, origin in rec.facts.items:
                                     if f.symbols() & loopvars or origin.startswith("loop range"):
                                         continue
                                     try:
                                         if concrete(it, f, env) > 0:
-                                            rejected = True
+                                            taken = False
                                     except KeyError:
                                         pass
-                                if rejected:
-                                    break
+                                if not taken:
+                                    continue  # this trace (guards / branch conditions) is not the one taken by the instance
                                 if not rec.loops:
                                     vals = [dict(env)]
                                 else:
@@ -218,13 +225,11 @@ def bounded_grid(ctx, repo, it, tag, sliding, iw, recs, loc):
                         except KeyError:
                             return None
                         checked += 1
-                        if rejected:
-                            if feasible and spec:
-                                ctx.violation("R2", tag + ":bounded-grid", "a feasible configuration is rejected: n=%d window=%d step=%d fh=%s initial_window=%s "
-                                              "(specification yields cutoffs %s)" % (n, w, step, fh, iwv, [c for _, c in spec]), loc,
-                                              witness={"n": n, "w": w, "step": step, "fh": fh, "iw": iwv})
-                                return False
-                            continue
+                        if not got and feasible and spec:
+                            ctx.violation("R2", tag + ":bounded-grid", "a feasible configuration yields no split (rejected or empty): n=%d window=%d step=%d fh=%s "
+                                          "initial_window=%s (specification yields cutoffs %s)" % (n, w, step, fh, iwv, [c for _, c in spec]), loc,
+                                          witness={"n": n, "w": w, "step": step, "fh": fh, "iw": iwv})
+                            return False
                         if not feasible:
                             if got:
                                 ctx.violation("R3", tag + ":bounded-grid", "an infeasible configuration is accepted and yields splits: n=%d window=%d step=%d fh=%s "
@@ -282,9 +287,17 @@ def check_window_class(ctx, repo, cname):
                       "configuration initial_window + start_with_window=False is not rejected", loc0)
             continue
         want = 2 if iw else 1
-        if len(recs) != want:
-            ctx.violation("R1", tag + ":yields", "expected %d yield site(s) on this scenario, found %d" % (want, len(recs)), loc0)
+        sites = []
+        for r_ in recs:
+            if not any(r_.node is x for x in sites):
+                sites.append(r_.node)
+        if len(sites) != want:
+            ctx.violation("R1", tag + ":yields", "expected %d yield site(s) on this scenario, found %d" % (want, len(sites)), loc0)
             continue
+        if len(recs) != want and not SOFT_PRE.get(tag):
+            # several traces reach the same yield site (an undecided branch earlier in the method): the symbolic
+            # obligations below are evaluated on the last trace only; the bounded grid judges all of them
+            pass
         SOFT["on"] = False
         if sww:
             SOFT["on"] = bounded_grid(ctx, repo, it, tag, sliding, bool(iw), recs, loc0) is not None
@@ -404,7 +417,22 @@ def check_window_class(ctx, repo, cname):
         rets = [o[1] for s, o in tr3 if o[0] == "return"]
         loc3 = ctx.loc(k3.module, k3.methods["get_cutoffs"])
         c = tag + ":get_cutoffs"
-        if len(rets) != 1 or not isinstance(rets[0], Rng):
+        if len(rets) == 1 and isinstance(rets[0], Filt) and isinstance(rets[0].base, Rng) and as_lin_val(rets[0].bound) is not None:
+            flt = rets[0]
+            fx = [s_ for s_, o in tr3 if o[0] == "return"][0].facts
+            bound = as_lin_val(flt.bound)
+            first = flt.base.lo
+            keeps_all = (flt.op == ">=" and fx.entails(bound - first) is not None) or (flt.op == ">" and fx.entails(bound - first + 1) is not None)
+            drops_first = (flt.op == ">=" and fx.entails(first - bound + 1) is not None) or (flt.op == ">" and fx.entails(first - bound) is not None)
+            if keeps_all:
+                rets = [flt.base]
+            elif drops_first:
+                ctx.violation("R4", c, "reported cutoffs are filtered with `%s %r` and lose the first yielded cutoff %r (the splitter still yields that split)"
+                              % (flt.op, flt.bound, first), loc3, witness={"first_cutoff": repr(first)})
+                rets = None
+        if rets is None:
+            rets = []
+        elif len(rets) != 1 or not isinstance(rets[0], Rng):
             ctx.undecided("R4", c, "get_cutoffs does not return a single progression: %r" % (rets,), loc3)
         else:
             got = rets[0]
@@ -713,6 +741,7 @@ def check_stateless(ctx, repo):
 
 def run(ctx):
     repo = ctx.repo
+    del INTERPS[:]
     ctx.explain("C01: abstract interpretation (affine domain, scenario folding) of the four splitters' "
                 "_split/get_cutoffs/get_n_splits and _split_by_fh; obligations are identities of affine normal "
                 "forms and inequalities entailed by the rejecting guards on the trace.")
@@ -724,6 +753,20 @@ def run(ctx):
     check_single(ctx, repo)
     check_tts(ctx, repo)
     check_stateless(ctx, repo)
+    # no in-place augmented assignment on array-like values (parameters, horizons, cutoffs): a second call would see the change
+    seen_ip = set()
+    for it_ in INTERPS:
+        for fname_, tgt, val, node in it_.inplace:
+            key = "%s:%s:in-place" % (fname_, tgt)
+            if key in seen_ip:
+                continue
+            seen_ip.add(key)
+            ctx.violation("R4", key, "`%s` is modified in place (augmented assignment on the array %r) inside %s: the caller's horizon / cutoffs object "
+                          "changes, so a second split of the same splitter yields different windows" % (tgt, val, fname_),
+                          "%s:%s" % (SPLIT, node.lineno))
+    if not seen_ip:
+        ctx.ok("R4", "splitters:no-in-place-array-update", "no augmented assignment on array-like values in the interpreted splitter code",
+               SPLIT + ":1")
     ctx.floor("R1", 20)
     ctx.floor("R2", 6)
     ctx.floor("R3", 20)
